@@ -150,7 +150,7 @@ func c06Concurrent(a lib.Args, res *lib.Result) error {
 		upid = string(up.Body)[i+10:]
 		upid = upid[:strings.Index(upid, "<")]
 	}
-	workers, per := 8, 6
+	workers, per := 12, 14
 	if a.Thorough() {
 		per = 40
 	}
@@ -168,8 +168,8 @@ func c06Concurrent(a lib.Args, res *lib.Result) error {
 			defer wg.Done()
 			for n := 0; n < per; n++ {
 				mode := modes[(w+n)%len(modes)]
-				if n%2 == 0 {
-					mode = modes[0] // the reader with the most buffering gets half of the traffic
+				if n%4 != 3 {
+					mode = modes[0] // the reader with the most buffering gets most of the traffic
 				}
 				size := 70000 + r.Intn(200000)
 				body := r.Bytes(size)
